@@ -10,6 +10,12 @@ Oracle: ``rv.oracle.tables`` re-reads the three bundled CSV files of the working
 with the ``csv`` module and ``decimal``/``fractions``; the 1/v law is evaluated in long
 double from the independent SI table.  Nothing expected is computed by scippneutron.
 
+Names are judged by their characters: ``np.str_``, members of ``(str, Enum)`` / ``StrEnum`` classes and
+user subclasses of ``str`` (also ones that render or transform as another row name) are the plain
+names they compare equal to; every shard asks rows and near misses in each of these forms.  A
+deterministic list of attenuation classes (calling conventions, graph node, variances, dtypes,
+layouts, dim names, sizes, stand-ins, second use) runs on every shard through the same monitor.
+
 Rejection: the property says "any other name is rejected" without naming a type; the
 package documents ``ValueError`` ("No entry for ...").  Any ``Exception`` counts as a
 rejection, the type is tallied (``rejected_with:<Type>``); only *answering* is judged.
@@ -41,7 +47,15 @@ RULE = (
     'objects and their copy.copy / deepcopy / dataclasses.replace / pickle descendants have every public '
     'field (scattering_params, density, single cross-sections via dataclasses.replace, blank rows) '
     'reassigned or changed in place between calls in an enumerated step list, also before '
-    'compute_transmission_map, each call judged against the fields at that call; a case is distinct by '
+    'compute_transmission_map, each call judged against the fields at that call; name types: rows and near '
+    'misses of every shard given as np.str_, (str, Enum) member, StrEnum member and user str subclasses that '
+    'render (str/repr/format) or transform (strip, lower, ...) as ANOTHER row name, on both entry points, '
+    'plus keyword / instance / descriptor calls and lookups repeated after a refusal and after the results '
+    'were displayed, compared, copied; enumerated attenuation classes per shard: calling conventions incl. a '
+    'transform_coords graph node, operands with variances (result variances judged against first-order '
+    'propagation), int / float32 operands, transposed / strided / 3-d layouts, caller dim names, empty and '
+    'length-1 wavelengths, 2**20+7 and 3 x 400001 wavelengths on one shard, stand-ins and subclasses of '
+    'ScatteringParams / Material, second use of the same objects; a case is distinct by '
     '(function, table, blank pattern | variant kind, outcome | units, shape, decade)'
 )
 ASSUMPTIONS = [
@@ -58,6 +72,16 @@ ASSUMPTIONS = [
     'return a value (any Exception accepted, also one raised when the Material is constructed)',
     '"the attenuation coefficient of a material" is that of the material as it is when asked: the monitor '
     'copies the public fields of the live object when the call starts and judges against those',
+    'a name is its characters: any instance of str (np.str_, enum members with a str mixin, user subclasses) '
+    'that compares and hashes equal to a row name is that row, whatever its __str__/__repr__/__format__ or '
+    'text methods return; which str type the isotope field of the answer carries is not prescribed for them',
+    'where the attenuation coefficient carries variances they are the first-order propagation of the operand '
+    'variances (each of n, sigma_s, sigma_a, lambda enters the law once; 1e-12 relative); variances that are '
+    'not carried are counted, not judged',
+    'the bound method attenuation_coefficient(wavelength) is usable as a node of a transform_coords graph '
+    'whenever the direct call with the same wavelength answers',
+    'a "wavelength" whose unit is not a length (a time, an attenuation coefficient fed back) may be refused: '
+    'counted; an answer is judged like any other (it cannot be an inverse length)',
 ]
 TECHNIQUE = ('runtime monitors (sys.monitoring) on the lookup entry points and helpers plus a call-level '
              'judge for cache hits; exhaustive table walk against an independent csv/decimal re-read; '
@@ -138,6 +162,26 @@ def blank_pattern(row):
                    for f, _ in tables.SCATTERING_FIELDS)
 
 
+def chars(name):
+    """The characters of a ``str`` (sub)class instance as a builtin ``str``, whatever the subclass
+    overrides: a name IS its characters (that is what it compares and hashes equal to)."""
+    k = str.__str__(name)
+    if type(k) is not str:
+        k = str.__getitem__(name, slice(None))
+    if type(k) is not str:
+        k = ''.join(str.__getitem__(name, i) for i in range(str.__len__(name)))
+    return k
+
+
+def show(name):
+    """Unambiguous text for a name in messages (a subclass may override repr)."""
+    if type(name) is str:
+        return repr(name) if len(name) <= 80 else repr(name[:40]) + f'...({len(name)} characters)'
+    if isinstance(name, str):
+        return f'{type(name).__name__}<{show(chars(name))}>'
+    return f'{type(name).__name__} object'
+
+
 class Judge:
     """Shared by the traced monitors and the call-level driver."""
 
@@ -153,49 +197,62 @@ class Judge:
         """fn in ('Atom.for_isotope', 'ScatteringParams.for_isotope'); seen in ('traced', 'call')."""
         ctx = self.ctx
         t = T()
+        if not isinstance(name, str):
+            ctx.count('lookup:argument is not a str (not judged):' + type(name).__name__)
+            return 'not_a_name'
+        asked = name
         try:
+            # the name is its characters: np.str_, (str, Enum) members, StrEnum members and user
+            # subclasses of str are the names they compare equal to
+            name = chars(asked)
+            shown = show(asked)
             want = t.atom(name) if fn == 'Atom.for_isotope' else t.scattering_row(name)
         except Exception:  # noqa: BLE001
             ctx.oracle_error(f'C20 expected({fn})')
             return 'oracle_error'
-        case = {'function': fn, 'name': name, 'seen': seen, 'variant_kind': self.cur['kind'],
-                'variant_of': self.cur['base']}
+        case = {'function': fn, 'name': name if len(name) <= 200 else show(name), 'seen': seen,
+                'variant_kind': self.cur['kind'], 'variant_of': self.cur['base']}
+        if len(name) > 8192:
+            ctx.hit('size:name longer than 8192 characters')
+        if type(asked) is not str:
+            case['name_given_as'] = f'{type(asked).__module__}.{type(asked).__qualname__} (bases ' + \
+                ', '.join(b.__name__ for b in type(asked).__mro__[1:-1]) + ')'
         keys = {'fn': fn, 'seen': seen, 'variant': self.cur['kind']}
         ctx.event(fn if seen == 'traced' else fn + '.call')
         if want is None:
             if exc is None:
                 case['returned'] = describe(_fields(res))
                 ctx.violation('answered_unknown_name',
-                              f'{fn}({name!r}) is not a row of the table but was answered with '
+                              f'{fn}({shown}) is not a row of the table but was answered with '
                               f'{_short(res)}', case, **keys)
                 return 'answered'
             if not isinstance(exc, Exception):
-                ctx.violation('non_exception_escape', f'{fn}({name!r}) escaped with '
+                ctx.violation('non_exception_escape', f'{fn}({shown}) escaped with '
                               f'{type(exc).__name__}', case, **keys)
                 return 'escaped'
             if seen == 'call':
                 ctx.count('rejected_with:' + type(exc).__name__)
             return 'rejected:' + type(exc).__name__
         if exc is not None:
-            ctx.violation('row_rejected', f'{fn}({name!r}) is a table row but raised '
+            ctx.violation('row_rejected', f'{fn}({shown}) is a table row but raised '
                           f'{type(exc).__name__}: {exc}', case, **keys)
             return 'row_rejected'
         try:
-            bad = (self._cmp_atom(name, res, want) if fn == 'Atom.for_isotope'
-                   else self._cmp_sp(name, res, want))
+            bad = (self._cmp_atom(name, res, want, asked) if fn == 'Atom.for_isotope'
+                   else self._cmp_sp(name, res, want, asked))
         except Exception:  # noqa: BLE001
             ctx.oracle_error(f'C20 compare({fn})')
             return 'oracle_error'
         if bad:
             field, what, text = bad
             case['returned'] = describe(_fields(res))
-            ctx.violation('row_mismatch', f'{fn}({name!r}).{field}: {text}', case,
+            ctx.violation('row_mismatch', f'{fn}({shown}).{field}: {text}', case,
                           field=field, aspect=what, **keys)
             return 'mismatch'
         # call history must not matter: bitwise the same answer every time
         if seen == 'call':
             try:
-                f = fp(_fields(res))
+                f = fp(_fields(res, plain_name=True))
             except Exception:  # noqa: BLE001
                 ctx.oracle_error('C20 fingerprint')
                 return 'oracle_error'
@@ -204,18 +261,31 @@ class Judge:
                 ctx.event('history.same_answer')
                 if self.first_fp[k] != f:
                     ctx.violation('history_dependent',
-                                  f'{fn}({name!r}) answered differently on a repeated call', case, **keys)
+                                  f'{fn}({shown}) answered differently on a repeated call', case, **keys)
                     return 'history'
             else:
                 self.first_fp[k] = f
         return 'row_ok'
 
-    def _cmp_atom(self, name, res, want):
+    @staticmethod
+    def _cmp_name(got, name, asked):
+        """The result names the nuclide that was asked for.  Asked with a builtin str: exactly that str.
+        Asked with a str subclass: any str with the same characters (the property does not say which
+        type the field carries; the package keeps the caller's object)."""
+        if asked is None or type(asked) is str:
+            if type(got) is not str or got != name:
+                return 'isotope', 'name', f'isotope {got!r} expected {name!r}'
+        elif not isinstance(got, str) or chars(got) != name:
+            return 'isotope', 'name', f'isotope {show(got)} expected the characters {name!r}'
+        return None
+
+    def _cmp_atom(self, name, res, want, asked=None):
         z, w, m = want
         if not isinstance(res, self.atom_cls):
             return 'result', 'type', f'{type(res).__name__} is not an Atom'
-        if type(res.isotope) is not str or res.isotope != name:
-            return 'isotope', 'name', f'isotope {res.isotope!r} expected {name!r}'
+        bad = self._cmp_name(res.isotope, name, asked)
+        if bad:
+            return bad
         if type(res.z) is not int or res.z != z:
             return 'z', 'z', f'z = {res.z!r} expected {z} (element {T().element_of(name)})'
         for field, q in (('atomic_weight', w), ('atomic_mass', m)):
@@ -247,11 +317,12 @@ class Judge:
                 return field, 'blank', f'{describe(getattr(res, field))} stored although the table has none'
         return None
 
-    def _cmp_sp(self, name, res, want):
+    def _cmp_sp(self, name, res, want, asked=None):
         if not isinstance(res, self.sp_cls):
             return 'result', 'type', f'{type(res).__name__} is not ScatteringParams'
-        if type(res.isotope) is not str or res.isotope != name:
-            return 'isotope', 'name', f'isotope {res.isotope!r} expected {name!r}'
+        bad = self._cmp_name(res.isotope, name, asked)
+        if bad:
+            return bad
         for field, _ in tables.SCATTERING_FIELDS:
             q = want[field]
             got = getattr(res, field)
@@ -262,10 +333,15 @@ class Judge:
         return None
 
 
-def _fields(res):
+def _fields(res, plain_name=False):
     import dataclasses
     if dataclasses.is_dataclass(res) and not isinstance(res, type):
-        return {f.name: getattr(res, f.name) for f in dataclasses.fields(res)}
+        d = {f.name: getattr(res, f.name) for f in dataclasses.fields(res)}
+        if plain_name and isinstance(d.get('isotope'), str):
+            # the name field is judged on its own (_cmp_name); every spelling of a name must give
+            # bitwise the same numbers, so the fingerprint takes the characters only
+            d['isotope'] = chars(d['isotope'])
+        return d
     return res
 
 
@@ -286,35 +362,38 @@ def judge_find_line(ctx, ev):
     if not isinstance(name, str):
         ctx.count('find_line:non_string')
         return
-    case = {'function': '_find_line_with_isotope', 'file': fname, 'name': name}
+    name = chars(name)
+    case = {'function': '_find_line_with_isotope', 'file': fname, 'name': name if len(name) <= 200 else show(name)}
     row = t.raw[fname].get(name)
     ctx.event('_find_line_with_isotope')
     if ev.exc is not None:
         # scanning a well-formed file for any string needs no exception
-        ctx.violation('scan_raised', f'_find_line_with_isotope({name!r}, {fname}) raised '
+        ctx.violation('scan_raised', f'_find_line_with_isotope({show(name)}, {fname}) raised '
                       f'{type(ev.exc).__name__}: {ev.exc}', case, file=fname)
         return
     if row is None:
         if ev.result is not None:
             what = 'title_or_comment' if name in t.non_rows.get(fname, ()) else 'other_row'
             ctx.violation('scan_matched_non_row',
-                          f'{name!r} is not a data row of {fname} but the scan returned '
+                          f'{show(name)} is not a data row of {fname} but the scan returned '
                           f'{ev.result!r}', case, file=fname, matched=what)
         return
     if ev.result is None:
-        ctx.violation('scan_missed_row', f'{name!r} is a row of {fname} but the scan found nothing',
+        ctx.violation('scan_missed_row', f'{show(name)} is a row of {fname} but the scan found nothing',
                       case, file=fname)
         return
     import csv
     got = next(csv.reader([ev.result]), None)
     if got != row:
-        ctx.violation('scan_wrong_row', f'scan for {name!r} in {fname} returned {ev.result!r}, the row is '
+        ctx.violation('scan_wrong_row', f'scan for {show(name)} in {fname} returned {ev.result!r}, the row is '
                       f'{",".join(row)!r}', case, file=fname)
 
 
 def judge_parse_name(ctx, ev):
     name = ev.args.get('name')
     t = T()
+    if isinstance(name, str):
+        name = chars(name)
     if not isinstance(name, str) or (name not in t.weights and name not in t.masses
                                      and name not in t.scattering):
         ctx.count('parse_name:not_a_row')
@@ -397,7 +476,7 @@ def snapshot_material(ev):
         ss, sa = p.total_scattering_cross_section, p.absorption_cross_section
         cp = lambda v: v.copy() if isinstance(v, sc.Variable) else v  # noqa: E731
         return {'n': cp(n), 'ss': cp(ss), 'sa': cp(sa), 'wl': cp(wl), 'isotope': getattr(p, 'isotope', None),
-                'ids': (id(n), id(p))}
+                'ids': (id(n), id(p)), 'aliased': len({id(n), id(ss), id(sa), id(wl)}) < 4}
     except Exception:  # noqa: BLE001
         return None
 
@@ -444,6 +523,11 @@ def judge_attenuation(ctx, ev, origin):
         var_bcast = any(_has_var(o) and set(o.dims) != rdims for o in opers)
     except Exception:  # noqa: BLE001
         ctx.oracle_error('C20 attenuation operands')
+        return
+    if ev.exc is not None and origin['v'].startswith('not a wavelength:'):
+        # the driver handed over something that is not a wavelength (unit of another dimension): a refusal
+        # is the expected outcome and only counted; an answer falls through to the ordinary judgement
+        ctx.count('attenuation:refused ' + origin['v'] + ':' + type(ev.exc).__name__)
         return
     if ev.exc is not None:
         if isinstance(ev.exc, sc.VariancesError) and var_bcast:
@@ -493,6 +577,7 @@ def judge_attenuation(ctx, ev, origin):
         return
     if got.size == 0:
         ctx.count('attenuation:empty')
+        ctx.event('attenuation.empty_wavelength')
         return
     if not np.all(np.isfinite(np.asarray(got, dtype=np.float64))):
         ctx.violation('attenuation_non_finite', 'non-finite attenuation for finite positive input', case)
@@ -506,6 +591,13 @@ def judge_attenuation(ctx, ev, origin):
     if state is not None:
         ctx.event('Material.attenuation_coefficient[live object]')
         ctx.hit('state:' + state)
+    if origin['v'].startswith('extra:'):
+        ctx.event('Material.attenuation_coefficient[enumerated classes]')
+        ctx.hit('judged:' + origin['v'][6:])
+    try:
+        judge_attenuation_variances(ctx, res, f_res, a, (n, ss, sa, wl), pre, case)
+    except Exception:  # noqa: BLE001
+        ctx.oracle_error('C20 attenuation variance oracle')
     if worst > TOL_ATT:
         i = int(np.argmax(err))
         case['worst'] = {'got_per_m': repr(np.ravel(got)[i]), 'expected_per_m': repr(np.ravel(exp)[i]),
@@ -519,6 +611,48 @@ def judge_attenuation(ctx, ev, origin):
                       f'1.7982 angstrom) by {worst:.3g} > {TOL_ATT:g}', case,
                       matches_inverse_law=near_inv, object_state='fresh' if state in (None, 'fresh') else 'altered',
                       absorption_share=float(np.ravel(1 - no_abs / exp)[i]) if np.ravel(exp)[i] != 0 else 0.0)
+
+
+TOL_VAR = 1e-12
+
+
+def judge_attenuation_variances(ctx, res, f_res, a, opers, pre, case):
+    """Where the result carries variances they are the first-order propagation of the operands' variances.
+    n, sigma_s, sigma_a and lambda each enter the law exactly once, so (for four distinct operand objects)
+    scipp's propagation is unambiguous:
+    var(mu) = (sigma_s + sigma_a l/l0)^2 var(n) + n^2 var(sigma_s) + (n l/l0)^2 var(sigma_a) + (n sigma_a/l0)^2 var(l)."""
+    n, ss, sa, wl = opers
+    with_var = [k for k, o in zip(('n', 'ss', 'sa', 'wl'), opers, strict=True) if _has_var(o)]
+    if res.variances is None:
+        if with_var:
+            ctx.count('attenuation:operand variances not carried by the result (not judged)')
+        return
+    if pre.get('aliased'):
+        ctx.count('attenuation:variances with aliased operands (not judged)')
+        return
+    v = {}
+    for key, o in zip(('n', 'ss', 'sa', 'wl'), opers, strict=True):
+        if _has_var(o):
+            v[key] = ops.align(sc.variances(o), res).astype(si.LD) * si.factor(o.unit) ** 2
+        else:
+            v[key] = si.LD(0)
+    L = LAMBDA_REF_M
+    exp = ((a['ss'] + a['sa'] * a['wl'] / L) ** 2 * v['n'] + a['n'] ** 2 * v['ss']
+           + (a['n'] * a['wl'] / L) ** 2 * v['sa'] + (a['n'] * a['sa'] / L) ** 2 * v['wl'])
+    got = np.asarray(res.variances).astype(si.LD) * si.LD(f_res) ** 2
+    err = si.relerr(got, np.broadcast_to(exp, got.shape))
+    worst = float(np.max(err))
+    ctx.dev('attenuation_variance_relerr', worst)
+    ctx.event('Material.attenuation_coefficient[variances]')
+    ctx.hit('var:from ' + '+'.join(with_var) if with_var else 'var:none')
+    if not worst <= TOL_VAR:
+        i = int(np.argmax(err))
+        case = dict(case, worst_variance={'got': repr(np.ravel(got)[i]),
+                                          'expected': repr(np.ravel(np.broadcast_to(exp, got.shape))[i]),
+                                          'relerr': worst})
+        ctx.violation('attenuation_variance', 'the variances of the attenuation coefficient are not the '
+                      f'first-order propagation of the operand variances (off by {worst:.3g})', case,
+                      variances_from='+'.join(with_var))
 
 
 # ------------------------------------------------------------ near-miss names ---
@@ -641,7 +775,196 @@ def special_names():
            '-', 'H\x00', '1.008', '-3.739']
     for non in t.non_rows.values():
         out.extend(non)
+    # sizes: names far longer than any row (nothing in the scan may depend on the length of the name)
+    out.extend(['H' * (8192 + 7), 'He' + ' ' * (2 ** 16 + 7), '1' * 5000 + 'H', 'Xe' * (2 ** 19) + 'Xenon7'])
     return list(dict.fromkeys(out))
+
+
+# ------------------------------------------------ names given as str subclasses ---
+_TEXT_METHODS = ('strip', 'lstrip', 'rstrip', 'lower', 'upper', 'casefold', 'title', 'capitalize', 'swapcase',
+                 'replace', 'removeprefix', 'removesuffix', 'expandtabs', 'translate', 'center', 'ljust',
+                 'rjust', 'zfill', 'format', 'format_map')
+
+
+class PlainName(str):
+    """A user subclass that overrides nothing."""
+
+
+class DecoyText(str):
+    """Renders as ANOTHER name (str / repr / format); its characters are the name."""
+
+    def __new__(cls, s, decoy):
+        o = str.__new__(cls, s)
+        o.decoy = decoy
+        return o
+
+    def __str__(self):
+        return self.decoy
+
+    def __repr__(self):
+        return repr(self.decoy)
+
+    def __format__(self, spec):
+        return format(self.decoy, spec)
+
+
+class DecoyMethods(str):
+    """Every text-transforming method answers with ANOTHER name; its characters are the name."""
+
+    def __new__(cls, s, decoy):
+        o = str.__new__(cls, s)
+        o.decoy = decoy
+        return o
+
+    def encode(self, *a, **k):
+        return self.decoy.encode()
+
+    def split(self, *a, **k):
+        return [self.decoy]
+
+    rsplit = splitlines = split
+
+    def __reduce__(self):
+        return (DecoyMethods, (chars(self), self.decoy))
+
+
+for _m in _TEXT_METHODS:
+    setattr(DecoyMethods, _m, lambda self, *a, **k: self.decoy)
+del _m
+
+SPELLINGS = ['np.str_', '(str, Enum) member', 'StrEnum member', 'str subclass', 'str subclass, other text',
+             'str subclass, other methods']
+
+
+def spellers(names, decoys):
+    """{spelling: {name: object}} for the given names; ``decoys[name]`` is what the decoy classes render."""
+    import enum
+
+    mixed = enum.Enum('Nuclide', [(f'N{i}', nm) for i, nm in enumerate(names)], type=str)
+    strenum = enum.StrEnum('NuclideName', [(f'N{i}', nm) for i, nm in enumerate(names)])
+    out = {
+        'np.str_': {nm: np.str_(nm) for nm in names},
+        '(str, Enum) member': {nm: mixed[f'N{i}'] for i, nm in enumerate(names)},
+        'StrEnum member': {nm: strenum[f'N{i}'] for i, nm in enumerate(names)},
+        'str subclass': {nm: PlainName(nm) for nm in names},
+        'str subclass, other text': {nm: DecoyText(nm, decoys[nm]) for nm in names},
+        'str subclass, other methods': {nm: DecoyMethods(nm, decoys[nm]) for nm in names},
+    }
+    for sp, d in out.items():  # the generator's own contract: same characters, equal, same hash
+        for nm, o in d.items():
+            if not (isinstance(o, str) and chars(o) == nm and o == nm and hash(o) == hash(nm)):
+                raise AssertionError(f'speller {sp} broke the name {nm!r}')
+    return out
+
+
+NONROW_KINDS = ['trail_space', 'lower', 'digit_suffix', 'element_suffix', 'truncate_last', 'letter_suffix',
+                'lead_space', 'leading_zero']
+
+
+def spelled_names(rng, ctx, t, J, call, work, all_names, A):
+    """The name argument in every form a ``str`` can take (np.str_, enum members with a str mixin, StrEnum,
+    user subclasses that render or transform as ANOTHER name): a row name in any of them is that row, a
+    non-row in any of them is refused.  Also the calling conventions of the two entry points, a second use
+    after a refusal and after the results were displayed / compared / copied."""
+    import copy
+    import dataclasses
+    import pickle
+
+    fns = ('Atom.for_isotope', 'ScatteringParams.for_isotope')
+    rows, decoys = [], {}
+    for fn_file in tables.FILES:
+        mine = [nm for _, f, nm in work if f == fn_file][:3]
+        pool = sorted(t.raw[fn_file])
+        for nm in mine:
+            d = nm
+            while d == nm:
+                d = pool[int(rng.integers(0, len(pool)))]
+            decoys[nm] = d  # another row of the same table: using the text instead of the name gives ITS data
+            rows.append(nm)
+    rows = list(dict.fromkeys(rows))
+    nonrows = []
+    k = 0
+    while len(nonrows) < 4 and k < 200:
+        base = rows[k % len(rows)]
+        v = make_variant(NONROW_KINDS[k % len(NONROW_KINDS)], base, rng, all_names, [''])
+        k += 1
+        if v and t.atom(v) is None and t.scattering_row(v) is None and v not in decoys:
+            nonrows.append(v)
+            decoys[v] = base  # renders as the real name it was derived from
+    forms = spellers(rows + nonrows, decoys)
+    for sp in SPELLINGS:
+        for nm in rows + nonrows:
+            is_row = nm in rows
+            o = forms[sp][nm]
+            J.cur = {'kind': 'spelling:' + sp, 'base': decoys[nm] if not is_row else None}
+            ctx.hit('spell:' + sp + ('' if is_row else ', not a row'))
+            for fn in fns:
+                before = ctx.n_violations
+                out, res = call(fn, o)
+                ctx.event('spelled_name.judged')
+                if out.startswith('rejected'):
+                    ctx.event('near_miss.rejected')
+                ctx.case((fn, 'spelled', sp, out.split(':')[0]))
+                if ctx.n_violations > before:
+                    ctx.sample({'function': fn, 'name': nm, 'given_as': sp, 'renders_as': str(o)[:40],
+                                'outcome': out})
+            # the plain string afterwards: the spelled lookups left nothing behind
+            for fn in fns:
+                call(fn, nm)
+
+    # ------------------------------------------------------ calling conventions ---
+    atom_cls, sp_cls = A.Atom, A.ScatteringParams
+    holder = {}
+
+    def via(fn, how, name):
+        f = {'Atom.for_isotope': atom_cls, 'ScatteringParams.for_isotope': sp_cls}[fn]
+        try:
+            if how == 'keyword':
+                res, exc = f.for_isotope(isotope=name), None
+            elif how == 'instance':
+                res, exc = holder[fn].for_isotope(name), None
+            else:
+                res, exc = f.__dict__['for_isotope'].__get__(None, f)(name), None
+        except Exception as e:  # noqa: BLE001
+            res, exc = None, e
+        return J.lookup(fn, name, res, exc, 'call'), res
+
+    for fn in fns:
+        pick = [nm for nm in rows if (t.atom(nm) if fn == 'Atom.for_isotope' else t.scattering_row(nm)) is not None]
+        out, holder[fn] = call(fn, pick[0])
+        for how in ('keyword', 'instance', 'descriptor'):
+            J.cur = {'kind': 'convention:' + how, 'base': None}
+            ctx.hit('conv:lookup ' + how)
+            for nm in pick[:3] + nonrows[:1]:
+                out, _ = via(fn, how, nm)
+                ctx.case((fn, 'convention', how, out.split(':')[0]))
+        # ------------------------------------- second use: after a refusal, after display / copy ---
+        J.cur = {'kind': 'second use', 'base': None}
+        for nm in pick[:3]:
+            out, _ = call(fn, nm + ' ')
+            out2, _ = call(fn, nm)
+            ctx.hit('again:row asked after its near miss was refused')
+            ctx.case((fn, 'second_use', 'after refusal', out.split(':')[0], out2))
+            out, res = call(fn, nm)
+            if res is None:
+                continue
+            done = []
+            for what, f in (('repr', lambda r: repr(r)), ('str', lambda r: str(r)),
+                            ('format', lambda r: f'{r}'),
+                            ('==', lambda r: (r == r, r == copy.copy(r), r != holder[fn], r == nm)),
+                            ('copy', lambda r: copy.copy(r)), ('deepcopy', lambda r: copy.deepcopy(r)),
+                            ('replace', lambda r: dataclasses.replace(r, isotope='Xx')),
+                            ('asdict', lambda r: dataclasses.asdict(r)),
+                            ('hash', lambda r: hash(r)),
+                            ('pickle', lambda r: pickle.loads(pickle.dumps(r)))):  # noqa: S301
+                try:
+                    f(res)
+                    done.append(what)
+                except Exception as e:  # noqa: BLE001  (what the objects support is not C20's subject)
+                    ctx.count(f'between:{what} of a result not possible:{type(e).__name__}')
+            out3, _ = call(fn, nm)  # judged, and bitwise the same as every earlier answer for this name
+            ctx.hit('between:results displayed, compared and copied between two lookups')
+            ctx.case((fn, 'second_use', 'after display/copy', out3, len(done)))
 
 
 # ------------------------------------------------------------------- workloads ---
@@ -913,6 +1236,243 @@ def in_situ_case(rng, ctx, scn_abs, sp_lookup, live=False):
     return ('attenuation', 'in_situ', w_unit, name in t.weights)
 
 
+# ------------------------------------------------ enumerated attenuation classes ---
+HEAVY_SHARD = 5
+DIM_NAMES = ['row', 'event', 'x', 'λ', 'wave length', 'range', 'vertex', 'dim_0', 'wavelength ', 'Wavelength']
+EXTRA_CLASSES = [
+    'conv:keywords', 'conv:mixed positional and keyword', 'conv:unbound method',
+    'conv:unbound method, keywords', 'conv:node of a transform_coords graph',
+    'var:wavelength with variances', 'var:wavelength with variances, 1-d', 'var:density with variances',
+    'var:all four operands with variances',
+    'dtype:int64 wavelength', 'dtype:int32 wavelength', 'dtype:float32 wavelength', 'dtype:int64 density',
+    'dtype:float32 density', 'dtype:float32 cross-sections',
+    'layout:transposed view', 'layout:strided slice', 'layout:slice of the outer dim', 'layout:3-d wavelength',
+    'layout:caller dim names', 'size:empty wavelength', 'size:length 1',
+    'duck:stand-in for ScatteringParams', 'duck:ScatteringParams subclass with computed cross-sections',
+    'duck:Material subclass', 'again:same objects twice', 'again:after a refused call',
+    'again:result fed back as wavelength', 'between:material displayed, compared and copied between two calls',
+]
+HEAVY_CLASSES = ['size:2**20 + 7 wavelengths', 'size:3 x 400001 wavelengths']
+# classes whose call the attenuation monitor decides against the law (an empty wavelength has nothing to decide)
+JUDGED_EXTRA = [c for c in EXTRA_CLASSES if c != 'size:empty wavelength']
+
+
+def extra_attenuation(rng, ctx, scn_abs, A, sp_lookup, origin, heavy):
+    """One case per class of EXTRA_CLASSES (every shard) and of HEAVY_CLASSES (one shard): calling conventions,
+    operands with variances, dtypes, memory layouts and dim names, sizes, stand-ins for the argument classes,
+    second use.  Every call goes through the attenuation monitor, which knows nothing of the class."""
+    import copy
+    import dataclasses
+    from types import SimpleNamespace
+
+    Material, sp_cls = scn_abs.Material, A.ScatteringParams
+    plain, unc, blank = _row_kinds()
+    pick = lambda seq: seq[int(rng.integers(0, len(seq)))]  # noqa: E731
+
+    def dens(dims=(), shape=(), unit=None, dtype=None, rel_std=None):
+        u = unit or pick(DENS_UNITS)
+        vals = _in_unit(10.0 ** rng.uniform(24, 31, size=shape or None), u)
+        v = sc.array(dims=list(dims), values=vals, unit=u) if dims else sc.scalar(float(vals), unit=u)
+        if dtype:
+            v = v.astype(dtype)
+        if rel_std:
+            v.variances = (np.asarray(v.values) * rel_std) ** 2
+        return v
+
+    def wav(dims=(), shape=(), unit=None, dtype=None, rel_std=None):
+        u = unit or pick(WAV_UNITS)
+        vals = _in_unit(10.0 ** rng.uniform(-11, -8, size=shape or None), u)
+        v = sc.array(dims=list(dims), values=vals, unit=u) if dims else sc.scalar(float(vals), unit=u)
+        if dtype:
+            v = v.astype(dtype)
+        if rel_std:
+            v.variances = (np.asarray(v.values) * rel_std) ** 2
+        return v
+
+    def table_params():
+        return sp_lookup(pick(plain))
+
+    class Box:
+        res = None
+
+    def ask(label, f, mark=None):
+        origin['v'] = mark or ('extra:' + label)
+        ctx.hit(label)
+        try:
+            Box.res = f()
+        except Exception:  # noqa: BLE001  (judged by the monitor through PY_UNWIND)
+            Box.res = None
+        finally:
+            origin['v'] = 'direct'
+        ctx.case(('attenuation', 'extra', label))
+        return Box.res
+
+    # ----------------------------------------------------------- conventions ---
+    p, n, wl = table_params(), dens(), wav(['wavelength'], [4])
+    m = Material(scattering_params=p, effective_sample_number_density=n)
+    ask('conv:keywords', lambda: m.attenuation_coefficient(wavelength=wl))
+    m = Material(table_params(), effective_sample_number_density=dens())
+    ask('conv:mixed positional and keyword', lambda: m.attenuation_coefficient(wav()))
+    ask('conv:unbound method', lambda: Material.attenuation_coefficient(m, wl))
+    ask('conv:unbound method, keywords', lambda: Material.attenuation_coefficient(self=m, wavelength=wl))
+    direct = ask('conv:keywords', lambda: m.attenuation_coefficient(wavelength=wl))
+    da = sc.DataArray(sc.ones(dims=['wavelength'], shape=[4]), coords={'wavelength': wl})
+    tried = {}
+
+    def as_node():
+        try:
+            return da.transform_coords('mu', graph={'mu': m.attenuation_coefficient},
+                                       rename_dims=False).coords['mu']
+        except Exception as e:  # noqa: BLE001
+            tried['exc'] = e
+            raise
+
+    via_graph = ask('conv:node of a transform_coords graph', as_node)
+    if direct is not None:
+        ctx.event('attenuation.as_graph_node')
+        case = {'function': 'Material.attenuation_coefficient', 'used_as': "graph={'mu': material."
+                "attenuation_coefficient} of transform_coords on a DataArray with a 'wavelength' coordinate",
+                'wavelength': describe(wl)}
+        if via_graph is None:
+            e = tried.get('exc')
+            ctx.violation('attenuation_as_graph_node', 'the bound method cannot be used as a node of a coordinate '
+                          f'graph although the direct call answers: {type(e).__name__}: {e}', case,
+                          aspect='raised')
+        elif not sc.identical(sc.values(via_graph), sc.values(direct)):
+            ctx.violation('attenuation_as_graph_node', 'the coordinate computed through the graph differs from '
+                          'the direct call', case, aspect='differs')
+
+    # -------------------------------------------------------------- variances ---
+    m = Material(table_params(), dens())
+    ask('var:wavelength with variances', lambda: m.attenuation_coefficient(wav(rel_std=0.05)))
+    ask('var:wavelength with variances, 1-d',
+        lambda: m.attenuation_coefficient(wav(['wavelength'], [5], rel_std=0.01)))
+    mv = Material(table_params(), dens(rel_std=0.02))
+    ask('var:density with variances', lambda: mv.attenuation_coefficient(wav()))
+    own = _synthetic_params(rng, sp_cls)
+    for f in ('total_scattering_cross_section', 'absorption_cross_section'):
+        x = getattr(own, f)
+        x.variance = (float(x.value) * float(rng.uniform(0.001, 0.2))) ** 2
+    ma = Material(own, dens(rel_std=0.03))
+    ask('var:all four operands with variances', lambda: ma.attenuation_coefficient(wav(rel_std=0.04)))
+
+    # ----------------------------------------------------------------- dtypes ---
+    m = Material(table_params(), dens())
+    for dt, unit in (('int64', 'angstrom'), ('int32', 'nm'), ('float32', None)):
+        if dt == 'float32':
+            w = wav(['wavelength'], [6], dtype='float32')
+        else:
+            w = sc.array(dims=['wavelength'], values=rng.integers(1, 40, size=6), unit=unit, dtype=dt)
+        ask(f'dtype:{dt} wavelength', lambda w=w: m.attenuation_coefficient(w))
+    mi = Material(table_params(), sc.scalar(int(rng.integers(1, 90)), unit='1/nm^3', dtype='int64'))
+    ask('dtype:int64 density', lambda: mi.attenuation_coefficient(wav(['wavelength'], [3])))
+    mf = Material(table_params(), dens(dtype='float32', unit='1/angstrom^3'))
+    ask('dtype:float32 density', lambda: mf.attenuation_coefficient(wav()))
+    own = _synthetic_params(rng, sp_cls)
+    own = dataclasses.replace(own, total_scattering_cross_section=own.total_scattering_cross_section.astype('float32'),
+                              absorption_cross_section=own.absorption_cross_section.astype('float32'))
+    mo = Material(own, dens())
+    ask('dtype:float32 cross-sections', lambda: mo.attenuation_coefficient(wav(['wavelength'], [3])))
+
+    # ---------------------------------------------------- layouts, dim names ---
+    w2 = wav(['x', 'wavelength'], [3, 8])
+    m2 = Material(table_params(), dens(['x'], [3]))
+    ask('layout:transposed view', lambda: m2.attenuation_coefficient(w2.transpose()))
+    ask('layout:strided slice', lambda: m2.attenuation_coefficient(w2['wavelength', 1::3]))
+    ask('layout:slice of the outer dim', lambda: m.attenuation_coefficient(w2['x', 1]))
+    w3 = wav(['a', 'b', 'c'], [2, 3, 4])
+    m3 = Material(table_params(), dens(['b'], [3]))
+    ask('layout:3-d wavelength', lambda: m3.attenuation_coefficient(w3))
+    for k in range(3):
+        d1, d2 = (DIM_NAMES[int(i)] for i in rng.permutation(len(DIM_NAMES))[:2])
+        wn = wav([d1, d2], [2, 3])
+        mn = Material(table_params(), dens([d1] if k % 2 else [d2], [2] if k % 2 else [3]))
+        ask('layout:caller dim names', lambda wn=wn, mn=mn: mn.attenuation_coefficient(wn))
+
+    # ------------------------------------------------------------------ sizes ---
+    ask('size:empty wavelength', lambda: m.attenuation_coefficient(wav(['wavelength'], [0])))
+    ask('size:length 1', lambda: m.attenuation_coefficient(wav(['wavelength'], [1])))
+    if heavy:
+        big = wav(['wavelength'], [2 ** 20 + 7], unit='angstrom')
+        ask('size:2**20 + 7 wavelengths', lambda: m.attenuation_coefficient(big))
+        big2 = wav(['x', 'wavelength'], [3, 400001], unit='nm')
+        ask('size:3 x 400001 wavelengths', lambda: m2.attenuation_coefficient(big2))
+        del big, big2
+
+    # -------------------------------------- stand-ins for the argument classes ---
+    src = _synthetic_params(rng, sp_cls)
+    duck = SimpleNamespace(isotope='stand-in', total_scattering_cross_section=src.total_scattering_cross_section,
+                           absorption_cross_section=src.absorption_cross_section)
+    md = Material(duck, dens())
+    ask('duck:stand-in for ScatteringParams', lambda: md.attenuation_coefficient(wav(['wavelength'], [3])))
+
+    class Mixture(sp_cls):
+        """Cross-sections computed on every access from the parts (isotope mixture)."""
+
+        def __init__(self, parts, shares):
+            object.__setattr__(self, 'isotope', 'mixture')
+            object.__setattr__(self, 'parts', parts)
+            object.__setattr__(self, 'shares', shares)
+
+        def _mix(self, field):
+            return sum((getattr(q, field) * c for q, c in zip(self.parts[1:], self.shares[1:], strict=True)),
+                       getattr(self.parts[0], field) * self.shares[0])
+
+        total_scattering_cross_section = property(lambda self: self._mix('total_scattering_cross_section'))
+        absorption_cross_section = property(lambda self: self._mix('absorption_cross_section'))
+
+    share = float(rng.uniform(0.1, 0.9))
+    mix = Mixture([sp_lookup(pick(plain)), sp_lookup(pick(plain))], [share, 1 - share])
+    mm = Material(mix, dens())
+    ask('duck:ScatteringParams subclass with computed cross-sections',
+        lambda: mm.attenuation_coefficient(wav(['wavelength'], [3])))
+
+    @dataclasses.dataclass
+    class Sample(Material):
+        label: str = 'sample'
+
+        def __repr__(self):
+            return f'Sample({self.label})'
+
+    ms = Sample(table_params(), dens(), label='can')
+    ask('duck:Material subclass', lambda: ms.attenuation_coefficient(wav(['wavelength'], [3])))
+
+    # -------------------------------------------------------------- second use ---
+    m, w = Material(table_params(), dens()), wav(['wavelength'], [5])
+    r1 = ask('again:same objects twice', lambda: m.attenuation_coefficient(w))
+    r2 = ask('again:same objects twice', lambda: m.attenuation_coefficient(w))
+    ask('again:after a refused call',
+        lambda: m.attenuation_coefficient(sc.array(dims=['wavelength'], values=[1.0, 2.0], unit='s')),
+        mark='not a wavelength:a time')
+    r3 = ask('again:after a refused call', lambda: m.attenuation_coefficient(w))
+    if r1 is not None:
+        ask('again:result fed back as wavelength', lambda: m.attenuation_coefficient(r1),
+            mark='not a wavelength:an attenuation coefficient')
+    r4 = ask('again:result fed back as wavelength', lambda: m.attenuation_coefficient(w))
+    done = 0
+    for f in (repr, str, lambda o: f'{o}', lambda o: o == copy.copy(o), lambda o: o != m2, copy.copy, copy.deepcopy,
+              dataclasses.asdict, lambda o: repr(o.scattering_params), lambda o: str(o.effective_sample_number_density),
+              lambda o: o.scattering_params == copy.deepcopy(o.scattering_params)):
+        try:
+            f(m)
+            done += 1
+        except Exception as e:  # noqa: BLE001
+            ctx.count('between:operation on a Material not possible:' + type(e).__name__)
+    r5 = ask('between:material displayed, compared and copied between two calls',
+             lambda: m.attenuation_coefficient(w))
+    ctx.event('attenuation.second_use')
+    fps = [fp(r) if r is not None else None for r in (r1, r2, r3, r4, r5)]
+    if len(set(fps)) != 1:
+        which = ['first call', 'second call', 'after a refused call', 'after the result was fed back',
+                 'after display / comparison / copy']
+        k = next(i for i, x in enumerate(fps) if x != fps[0])
+        ctx.violation('attenuation_history_dependent', 'the same material asked with the same wavelength answered '
+                      f'differently {which[k]}', {'function': 'Material.attenuation_coefficient',
+                                                  'wavelength': describe(w), 'answers': [describe(r) for r in
+                                                                                         (r1, r2, r3, r4, r5)]},
+                      stage=which[k])
+
+
 # ---------------------------------------------------------------------- driver ---
 def plan(tier, seed):
     near = 320 if tier == 'quick' else 1250
@@ -961,12 +1521,25 @@ def requirements(tier):
             'Material.attenuation_coefficient[live object]': (3 if tier == 'quick' else 60) * 15 * N_SHARDS,
             'history.same_answer': 2 * 4046,
             'near_miss.rejected': n_near,
+            'spelled_name.judged': N_SHARDS * len(SPELLINGS) * 2 * 10,
+            'attenuation.as_graph_node': N_SHARDS,
+            'attenuation.second_use': N_SHARDS,
+            'attenuation.empty_wavelength': N_SHARDS,
+            'Material.attenuation_coefficient[enumerated classes]': N_SHARDS * len(JUDGED_EXTRA),
+            'Material.attenuation_coefficient[variances]': N_SHARDS * 4,
         },
         'forced': ['kind:' + k for k in KINDS] + [
             'att:table', 'att:synthetic', 'att:scalar', 'att:dense_1d', 'att:dense_2d', 'att:in_situ',
             'att:sigma_a=0', 'att:sigma_s=0', 'cache:hit', 'cache:miss_after_eviction',
             'att:in_situ with a reassigned material',
-        ] + ['state:' + c for c in STATE_CLASSES] + _row_classes_present(),
+            'repeat:asked again within a block of 64', 'repeat:asked again after 140 other names',
+            'size:name longer than 8192 characters', 'conv:lookup keyword', 'conv:lookup instance', 'conv:lookup descriptor',
+            'again:row asked after its near miss was refused',
+            'between:results displayed, compared and copied between two lookups',
+            'var:from wl', 'var:from n', 'var:from n+ss+sa+wl',
+        ] + ['state:' + c for c in STATE_CLASSES] + _row_classes_present() + [
+            'spell:' + sp for sp in SPELLINGS] + ['spell:' + sp + ', not a row' for sp in SPELLINGS
+        ] + EXTRA_CLASSES + HEAVY_CLASSES + ['judged:' + c for c in JUDGED_EXTRA + HEAVY_CLASSES],
         'counters': {
             'rows_decided:scattering_parameters.csv': rows['scattering_parameters.csv'],
             'rows_decided:atomic_weights.csv': rows['atomic_weights.csv'],
@@ -1074,9 +1647,19 @@ def run(shard, ctx):
             res, exc = None, e
         return J.lookup(fn, name, res, exc, 'call'), res
 
-    def hits(fn):
-        ci = getattr(entry[fn], 'cache_info', None)
-        return ci().hits if ci else None
+    # every memoising wrapper of the atoms module, wherever it sits (entry point, loader, helper): which
+    # function carries the cache is the package's business, the evidence only says that repeated lookups
+    # were served from one
+    caches = []
+    for holder_ in (A, A.Atom, A.ScatteringParams):
+        for obj in list(vars(holder_).values()):
+            obj = getattr(obj, '__func__', obj)
+            if callable(getattr(obj, 'cache_info', None)) and not any(obj is c for c in caches):
+                caches.append(obj)
+    ctx.extra['memoised_functions'] = sorted(getattr(c, '__qualname__', repr(c)) for c in caches)
+
+    def hits():
+        return sum(c.cache_info().hits for c in caches)
 
     with tr:
         # ---------------------------------------------------- exhaustive rows ---
@@ -1092,13 +1675,14 @@ def run(shard, ctx):
         for b0 in range(0, len(work), BLOCK):
             block = work[b0:b0 + BLOCK]
             for pass_no in (0, 1):
-                h0 = {fn: hits(fn) for fn in entry}
+                h0 = hits()
                 for j in (range(len(block)) if pass_no == 0 else rng.permutation(len(block))):
                     fn, fn_file, nm = block[j]
                     out, res = call(fn, nm)
                     _row_bookkeeping(ctx, t, fn, fn_file, nm, out, pass_no)
                 if pass_no == 1:
-                    got_hits = sum((hits(fn) or 0) - (h0[fn] or 0) for fn in entry)
+                    ctx.hit('repeat:asked again within a block of 64')
+                    got_hits = hits() - h0
                     if got_hits:
                         ctx.hit('cache:hit', got_hits)
                     ctx.count('cache_hits_in_second_pass', got_hits)
@@ -1110,12 +1694,13 @@ def run(shard, ctx):
             for k in rng.permutation(len(others))[:EVICTORS]:
                 out, res = call(fn, others[k])
                 ctx.case((fn, fn_file, 'evictor', out))
-        h0 = {fn: hits(fn) for fn in entry}
+        h0 = hits()
         for j in rng.permutation(len(work)):
             fn, fn_file, nm = work[j]
             out, res = call(fn, nm)
             _row_bookkeeping(ctx, t, fn, fn_file, nm, out, 2)
-        missed = len(work) - sum((hits(fn) or 0) - (h0[fn] or 0) for fn in entry)
+        ctx.hit('repeat:asked again after 140 other names')
+        missed = len(work) - (hits() - h0)
         if missed > 0:
             ctx.hit('cache:miss_after_eviction', missed)
         ctx.count('cache_misses_in_third_pass', missed)
@@ -1170,6 +1755,14 @@ def run(shard, ctx):
                                 'outcome': out})
         J.cur = {'kind': 'row', 'base': None}
 
+        # ---------------------------------------- names given as str subclasses ---
+        try:
+            spelled_names(np.random.Generator(np.random.PCG64([shard['seed'], idx, 20, 11])), ctx, t, J, call,
+                          work, all_names, A)
+        except Exception:  # noqa: BLE001
+            ctx.oracle_error('C20 spelled-name driver')
+        J.cur = {'kind': 'row', 'base': None}
+
         # --------------------------------------------------------- attenuation ---
         def sp_lookup(name):
             p = A.ScatteringParams.for_isotope(name)
@@ -1211,6 +1804,13 @@ def run(shard, ctx):
             if i < 2 or ctx.n_violations > before:
                 ctx.sample({'function': 'Material.attenuation_coefficient', 'isotope': name,
                             'density': describe(n), 'wavelength': describe(wl), 'sig': sig})
+        # ------------------------------------------------- enumerated classes ---
+        try:
+            extra_attenuation(np.random.Generator(np.random.PCG64([shard['seed'], idx, 20, 13])), ctx, scn_abs, A,
+                              sp_lookup, origin, heavy=idx == HEAVY_SHARD % nsh)
+        except Exception:  # noqa: BLE001
+            ctx.oracle_error('C20 enumerated attenuation classes')
+        origin['v'] = 'direct'
         # --------------------------------------------------------- object state ---
         for k in range(int(shard.get('state', 0))):
             srng = np.random.Generator(np.random.PCG64([shard['seed'], idx, 20, 7, k]))
